@@ -25,7 +25,15 @@ LAYOUTS = {
     "norep": [M(["A"], ["A"], D), M(["LEFTSHIFT", "A"], ["X"]), M(["S"], ["LEFTSHIFT", "S"], S(["LEFTSHIFT", "C", "D"], 4, 2))],
     "empty-chord": [M(["S"], ["S"], S([], 5, 2)), M(["A"], ["B"], S(["B"], 5, 2))],
     "absorb": [M(["C", "A"], ["X"], N, ["C"]), M(["C", "B"], ["Y"], D), M(["C"], [])],
+    # two mappings sharing an output modifier, the second with a Special repeat that names it: rolling from A to S releases and re-presses LEFTSHIFT in ONE write
+    "rollover": [M(["A"], ["LEFTSHIFT", "B"]), M(["S"], ["LEFTSHIFT", "S"], S(["LEFTSHIFT", "C"], 4, 2))],
+    # a chord that keeps its own modifier (every capital letter of super-dvorak has this shape)
+    "shiftchord": [M(["LEFTSHIFT", "A"], ["LEFTSHIFT", "B"]), M(["S"], ["S"], S(["C"]))],
+    # no mappings: everything passes through (many keys held at once)
+    "passthru": [],
 }
+# a burst of nine different keys going down at once (then e.g. the tablet switch turns on: one release batch of nine events)
+NINE = ["P:1", "P:2", "P:3", "P:4", "P:5", "P:6", "P:7", "P:8", "P:9"]
 
 
 def ev(s):
@@ -35,20 +43,22 @@ def ev(s):
 # (layout, key events, MaxArrivals, MaxTablet, MaxTimeouts, MaxIntr)
 GEN = {
     ("C10", "quick"): [("basic", ["P:A", "R:A"], 3, 1, 1, 0), ("basic", ["P:A", "R:A"], 3, 0, 1, 1), ("basic", ["P:A", "R:A", "P:S"], 4, 0, 0, 0),
-                       ("norep", ["P:LEFTSHIFT", "P:A", "R:A"], 3, 0, 0, 1), ("absorb", ["P:C", "P:A", "P:B"], 3, 0, 0, 0)],
+                       ("norep", ["P:LEFTSHIFT", "P:A", "R:A"], 3, 0, 0, 1), ("absorb", ["P:C", "P:A", "P:B"], 3, 0, 0, 0),
+                       ("basic", ["P:A", "P:S"], 1, 1, 0, 0, 20), ("basic", ["P:A", "R:A"], 1, 0, 1, 0, 40), ("passthru", ["R:1"], 1, 1, 0, 0, NINE)],
     ("C10", "thorough"): [("basic", ["P:A", "R:A", "P:S"], 3, 1, 1, 1), ("basic", ["P:A", "R:A"], 4, 1, 1, 0), ("basic", ["P:A", "R:A", "P:S", "R:S"], 5, 0, 0, 0),
                           ("norep", ["P:LEFTSHIFT", "P:A", "R:A", "P:S"], 4, 0, 1, 1), ("absorb", ["P:C", "P:A", "P:B", "R:C"], 4, 0, 0, 0),
-                          ("chord", ["P:LEFTCTRL", "P:K", "P:A"], 3, 1, 1, 0)],
-    ("C11", "quick"): [("basic", ["P:S", "R:S"], 3, 1, 2, 0), ("chord", ["P:LEFTCTRL", "P:K", "R:K"], 3, 0, 2, 0), ("empty-chord", ["P:S", "P:A", "P:B"], 3, 0, 2, 0),
+                          ("chord", ["P:LEFTCTRL", "P:K", "P:A"], 3, 1, 1, 0), ("basic", ["P:A", "P:S"], 2, 1, 0, 0, 20), ("basic", ["P:A", "R:A"], 1, 0, 1, 1, 70),
+                          ("norep", ["P:LEFTSHIFT", "P:A"], 2, 0, 0, 0, 33)],
+    ("C11", "quick"): [("rollover", ["P:A", "P:S", "R:A"], 3, 0, 2, 0), ("basic", ["P:S", "R:S"], 3, 1, 2, 0), ("chord", ["P:LEFTCTRL", "P:K", "R:K"], 3, 0, 2, 0), ("empty-chord", ["P:S", "P:A", "P:B"], 3, 0, 2, 0),
                        ("norep", ["P:LEFTSHIFT", "P:S", "P:D"], 3, 0, 2, 0)],
-    ("C11", "thorough"): [("basic", ["P:S", "R:S", "P:A"], 3, 1, 3, 0), ("chord", ["P:LEFTCTRL", "P:K", "R:K", "R:LEFTCTRL"], 4, 0, 2, 0), ("chord", ["P:LEFTCTRL", "P:K"], 2, 2, 2, 0),
+    ("C11", "thorough"): [("rollover", ["P:A", "P:S", "R:A", "R:S"], 4, 0, 3, 0), ("basic", ["P:S", "R:S", "P:A"], 3, 1, 3, 0), ("chord", ["P:LEFTCTRL", "P:K", "R:K", "R:LEFTCTRL"], 4, 0, 2, 0), ("chord", ["P:LEFTCTRL", "P:K"], 2, 2, 2, 0),
                           ("empty-chord", ["P:S", "P:A", "P:B", "R:B"], 4, 0, 2, 0), ("norep", ["P:LEFTSHIFT", "P:S", "P:D", "R:LEFTSHIFT"], 4, 0, 2, 0),
                           ("basic", ["P:S", "P:S", "R:S"], 3, 0, 4, 1)],
-    ("C12", "quick"): [("basic", ["P:A", "R:A"], 2, 2, 0, 0), ("basic", ["P:S"], 1, 2, 2, 0), ("chord", ["P:LEFTCTRL", "P:K"], 2, 1, 1, 0), ("basic", ["P:A", "R:A"], 3, 1, 0, 0)],
-    ("C12", "thorough"): [("basic", ["P:A", "R:A"], 3, 2, 0, 0), ("basic", ["P:S", "R:S"], 2, 2, 2, 0), ("chord", ["P:LEFTCTRL", "P:K", "R:LEFTCTRL"], 2, 2, 1, 0),
+    ("C12", "quick"): [("shiftchord", ["P:LEFTSHIFT", "P:A", "R:LEFTSHIFT"], 3, 1, 0, 0), ("passthru", ["R:1"], 1, 1, 0, 0, NINE), ("basic", ["P:A", "R:A"], 2, 2, 0, 0), ("basic", ["P:S"], 1, 2, 2, 0), ("chord", ["P:LEFTCTRL", "P:K"], 2, 1, 1, 0), ("basic", ["P:A", "R:A"], 3, 1, 0, 0)],
+    ("C12", "thorough"): [("shiftchord", ["P:LEFTSHIFT", "P:A", "R:LEFTSHIFT", "R:A"], 3, 2, 0, 0), ("passthru", ["R:1", "P:A"], 2, 2, 0, 0, NINE), ("basic", ["P:A", "R:A"], 3, 2, 0, 0), ("basic", ["P:S", "R:S"], 2, 2, 2, 0), ("chord", ["P:LEFTCTRL", "P:K", "R:LEFTCTRL"], 2, 2, 1, 0),
                           ("basic", ["P:A", "R:A"], 2, 3, 0, 0), ("norep", ["P:LEFTSHIFT", "P:A", "R:LEFTSHIFT"], 2, 2, 1, 0)],
-    ("C20", "quick"): [("basic", ["P:A", "P:S"], 2, 1, 1, 0), ("chord", ["P:LEFTCTRL", "P:K"], 2, 1, 1, 0)],
-    ("C20", "thorough"): [("basic", ["P:A", "R:A", "P:S"], 3, 1, 1, 1), ("chord", ["P:LEFTCTRL", "P:K", "R:K"], 3, 1, 2, 0), ("norep", ["P:LEFTSHIFT", "P:A", "P:S"], 3, 1, 1, 0)],
+    ("C20", "quick"): [("basic", ["P:A", "P:S"], 2, 1, 1, 0), ("chord", ["P:LEFTCTRL", "P:K"], 2, 1, 1, 0), ("passthru", ["R:1"], 1, 1, 0, 0, NINE)],
+    ("C20", "thorough"): [("passthru", ["R:1", "P:A"], 2, 2, 0, 0, NINE), ("basic", ["P:A", "R:A", "P:S"], 3, 1, 1, 1), ("chord", ["P:LEFTCTRL", "P:K", "R:K"], 3, 1, 2, 0), ("norep", ["P:LEFTSHIFT", "P:A", "P:S"], 3, 1, 1, 0)],
 }
 # random (simulated) behaviours at larger bounds
 SIM = {
@@ -76,13 +86,23 @@ def tla_layout(layout):
 
 
 def gen_run(wd, idx, cfg, workers, simulate=None):
+    burst = 0
+    if len(cfg) == 7:
+        burst = cfg[6]
+        cfg = cfg[:6]
     lname, kevs, ma, mt, mto, mi = cfg
     mod = "LG%d" % idx
     with open(os.path.join(wd, mod + ".tla"), "w") as f:
-        f.write("---- MODULE %s ----\nEXTENDS Loop\nMCLayout == %s\nMCKeyEvents == {%s}\n====\n"
-                % (mod, tla_layout(LAYOUTS[lname]), ", ".join('[t |-> "%s", k |-> "%s"]' % (e[0], e[2:]) for e in kevs)))
+        if isinstance(burst, list):
+            bseq = ", ".join('[t |-> "%s", k |-> "%s"]' % (e[0], e[2:]) for e in burst)
+        else:
+            # a burst alternates presses and releases of the first two keys of the alphabet
+            bk = [kevs[0][2:], kevs[-1][2:]]
+            bseq = ", ".join('[t |-> "%s", k |-> "%s"]' % ("PR"[(i // 2) % 2], bk[i % 2]) for i in range(burst))
+        f.write("---- MODULE %s ----\nEXTENDS Loop\nMCLayout == %s\nMCKeyEvents == {%s}\nMCBurst == <<%s>>\n====\n"
+                % (mod, tla_layout(LAYOUTS[lname]), ", ".join('[t |-> "%s", k |-> "%s"]' % (e[0], e[2:]) for e in kevs), bseq))
     with open(os.path.join(wd, mod + ".cfg"), "w") as f:
-        f.write("SPECIFICATION Spec\nCONSTANTS\n  Layout <- MCLayout\n  KeyEvents <- MCKeyEvents\n  MaxArrivals = %d\n  MaxTablet = %d\n  MaxTimeouts = %d\n  MaxIntr = %d\n  FaultAt = 0\n  Emit = TRUE\n"
+        f.write("SPECIFICATION Spec\nCONSTANTS\n  Layout <- MCLayout\n  KeyEvents <- MCKeyEvents\n  MaxArrivals = %d\n  MaxTablet = %d\n  MaxTimeouts = %d\n  MaxIntr = %d\n  FaultAt = 0\n  Emit = TRUE\n  Burst <- MCBurst\n"
                 % (ma, mt, mto, mi))
         for inv in INVARIANTS:
             f.write("INVARIANT %s\n" % inv)
@@ -280,7 +300,8 @@ def check(prop, tier, replay_file=None):
             "states": dist, "transitions": gen, "traces_validated_against_impl": regs["traces"], "samples": samples,
             "schedules_enumerated": len(cases), "runs_of_the_real_loop": regs["traces"], "trace_lines_validated": nlines,
             "monitor_counters": regs, "conformance_drifts": regs["drifts"],
-            "configurations": [{"layout": c[0], "key_events": c[1], "max_arrivals": c[2], "max_tablet_events": c[3], "max_timeouts": c[4], "max_interruptions": c[5]} for c in GEN[(prop, tier)]],
+            "configurations": [{"layout": c[0], "key_events": c[1], "max_arrivals": c[2], "max_tablet_events": c[3], "max_timeouts": c[4], "max_interruptions": c[5],
+                                "burst_of_events_arriving_at_once": c[6] if len(c) > 6 else 0} for c in GEN[(prop, tier)]],
             "exhaustive": True,
             "rule": "states/transitions: TLC model checking of spec/Loop.tla (loop + environment, design-level invariants incl. NoLostWakeup and SendsAreMapperOutputs) for the listed "
                     "configurations; every finished behaviour = one schedule (all splittings of the key histories into arrivals before polls and during drains, both device orders, "
